@@ -145,3 +145,27 @@ def check_certificate(p: Poly, cert: dict, nf: Poly, timeout_ms=DEFAULT_TIMEOUT_
         ok = s.check() == z3.unsat
     STATS['queries'] += 1; STATS['time'] += time.time() - t0
     return ok
+
+
+def model(conds, timeout_ms=5000):
+    """a rational model vid -> Fraction of facts /\\ relations /\\ conds, or None"""
+    tr = Z3Tr()
+    s = _solver(timeout_ms)
+    for c in conds:
+        s.add(tr.cond(c))
+        for a in (c.atoms() if isinstance(c, SymBool) else []):
+            for d in tr.den_nonzero(a.a): s.add(d)
+    for b in tr.background(): s.add(b)
+    if s.check() != z3.sat: return None
+    m = s.model()
+    out = {}
+    for vid, x in tr.vars.items():
+        v = m.eval(x, model_completion=True)
+        if z3.is_rational_value(v):
+            out[vid] = Q(v.numerator_as_long(), v.denominator_as_long())
+        elif z3.is_algebraic_value(v):
+            a = v.approx(30)
+            out[vid] = Q(a.numerator_as_long(), a.denominator_as_long())
+        else:
+            return None
+    return out
